@@ -1,6 +1,7 @@
 package worlds
 
 import (
+	"sort"
 	"fmt"
 	"sync"
 	"time"
@@ -229,8 +230,60 @@ func (w *Health) runChecker(uniq string) {
 		cbmu.Unlock()
 	})
 	hc.SetHealthCheckerHostSet(cluster.NewHostSet([]types.Host{host}))
+	total := time.Duration(n+1)*(timeout+interval+time.Millisecond) + 50*time.Millisecond
+	// an independent condition (outlier ejection) comes and goes on the same host while the checker runs:
+	// the checker's transitions and its 'changed' reports must not depend on it
+	type flip struct {
+		at       time.Duration
+		set      bool
+		inv, ret time.Duration // when the call really started and returned (it may be parked at a yield inside)
+	}
+	var flipMu sync.Mutex
+	var flips []flip
+	t0 := s.Now()
+	for i, nf := 0, ch.Pick("work", "outlier_flips", 4); i < nf; i++ {
+		at := t0 + time.Duration(ch.Pick("work", "outlier_at", int(total/time.Millisecond)))*time.Millisecond + time.Duration(500+i)*time.Microsecond // no two at the same instant
+		flips = append(flips, flip{at: at, set: i%2 == 0})
+	}
+	sort.Slice(flips, func(i, j int) bool { return flips[i].at < flips[j].at })
+	for i := range flips {
+		flips[i].set = i%2 == 0 // set, clear, set, ... in time order
+		f := &flips[i]
+		f.inv, f.ret = -1, -1
+		s.Faults["w:outlier_flag_during_checks"]++
+		go func() {
+			time.Sleep(f.at - t0)
+			flipMu.Lock()
+			f.inv = s.Now()
+			flipMu.Unlock()
+			if f.set {
+				host.SetHealthFlag(api.FAILED_OUTLIER_CHECK)
+			} else {
+				host.ClearHealthFlag(api.FAILED_OUTLIER_CHECK)
+			}
+			flipMu.Lock()
+			f.ret = s.Now()
+			flipMu.Unlock()
+		}()
+	}
+	outlierAt := func(t time.Duration) (set bool, sure bool) {
+		flipMu.Lock()
+		defer flipMu.Unlock()
+		sure = true
+		for _, f := range flips {
+			switch {
+			case f.inv < 0 || f.inv > t:
+				// not started by then
+			case f.ret >= 0 && f.ret < t:
+				set = f.set
+			default:
+				sure = false // in progress at (or at the very instant of) the callback
+			}
+		}
+		return
+	}
 	// let the scripted checks run: each takes at most timeout+interval(+jitter)
-	time.Sleep(time.Duration(n+1)*(timeout+interval+time.Millisecond) + 50*time.Millisecond)
+	time.Sleep(total)
 	hc.Stop()
 	time.Sleep(time.Millisecond)
 
@@ -286,8 +339,14 @@ func (w *Health) runChecker(uniq string) {
 			s.Violate("C16", "check_result_misreported"+suffix, "check #%d: the session's result was %v (answered after %v, timeout %v) but the checker reported %v (thresholds unhealthy=%d healthy=%d, script %v)", k, outcome, st.delay, timeout, got.isHealthy, uh, he, ss.script)
 			break
 		}
-		if got.changed != wantChanged || got.hostHealthy != healthy {
-			s.Violate("C16", "threshold_not_exact"+suffix, "check #%d (result %v): callback changed=%v host healthy=%v, reference changed=%v healthy=%v (thresholds unhealthy=%d healthy=%d)", k, outcome, got.changed, got.hostHealthy, wantChanged, healthy, uh, he)
+		wantHost := healthy
+		if out, sure := outlierAt(got.at); !sure {
+			wantHost = got.hostHealthy // a flip of the other condition at the very instant of the callback: either order
+		} else if out {
+			wantHost = false
+		}
+		if got.changed != wantChanged || got.hostHealthy != wantHost {
+			s.Violate("C16", "threshold_not_exact"+suffix, "check #%d (result %v): callback changed=%v host healthy=%v, reference changed=%v healthy=%v (thresholds unhealthy=%d healthy=%d; outlier flag flips during the checks: %v; callbacks %v)", k, outcome, got.changed, got.hostHealthy, wantChanged, wantHost, uh, he, flips, cbs)
 			break
 		}
 	}
